@@ -65,3 +65,47 @@ mutant("c09-reach-off-by-one", "C09", "C09.dom.reach", DB, "if bytes_from_dict >
 mutant("c09-window-test-dropped", "C09", "C09.dom.reach", DB, "if self.total_output_counter <= self.window_size as u64 {", "if self.total_output_counter <= u64::MAX {")
 benign("c09-rename-locals", "C09", DICT, "raw_tables", "rest", count=24)
 benign("c09-flip-compare", "C09", DICT, "if raw.len() < 8 {", "if 8 > raw.len() {")
+
+# ---- C14 -------------------------------------------------------------------------------
+SSD = "ruzstd/src/decoding/sequence_section_decoder.rs"
+COMP = "ruzstd/src/encoding/blocks/compressed.rs"
+SEQX = "ruzstd/src/decoding/sequence_execution.rs"
+LITS = "ruzstd/src/blocks/literals_section.rs"
+SEQS = "ruzstd/src/blocks/sequence_section.rs"
+FRAME = "ruzstd/src/decoding/frame.rs"
+BLKD = "ruzstd/src/decoding/block_decoder.rs"
+EBH = "ruzstd/src/encoding/block_header.rs"
+EFH = "ruzstd/src/encoding/frame_header.rs"
+mutant("c14-ll-code-25", "C14", "C14.table.value-codes", SSD, "25 => (64, 6),", "25 => (64, 5),")
+mutant("c14-ml-code-43-base", "C14", "C14.table.value-codes", SSD, "43 => (131, 7),", "43 => (130, 7),")
+mutant("c14-enc-ll-arm-range", "C14", "C14.table.value-codes", COMP, "64..=127 => (25, len - 64, 6),\n        128..=255 => (26, len - 128, 7),", "64..=128 => (25, len - 64, 6),\n        129..=255 => (26, len - 128, 7),")
+mutant("c14-enc-ml-extra-base", "C14", "C14.table.value-codes", COMP, "99..=130 => (42, len - 99, 5),", "99..=130 => (42, len - 98, 5),")
+mutant("c14-offset-enc-template", "C14", "C14.table.offset-codes", COMP, "let lower = len & ((1 << log) - 1);", "let lower = len & ((1 << log) - 2);")
+mutant("c14-repeat-offset-ll0-3", "C14", "C14.table.repeat-offsets", SEQX, "3 => scratch[0].saturating_sub(1),", "3 => scratch[0].saturating_sub(2),")
+mutant("c14-repeat-hist-swap", "C14", "C14.table.repeat-offsets", SEQX,
+       "            2 => {\n                scratch[1] = scratch[0];\n                scratch[0] = actual_offset;\n            }\n            _ => {",
+       "            2 => {\n                scratch[2] = scratch[0];\n                scratch[0] = actual_offset;\n            }\n            _ => {")
+mutant("c14-lit-18bit-mask", "C14", "C14.layout.literals-header", LITS,
+       "                            + ((u32::from(raw[2]) & 0x3F) << 12);\n\n                        // 2 from third, full fourth, full fifth byte",
+       "                            + ((u32::from(raw[2]) & 0x1F) << 12);\n\n                        // 2 from third, full fourth, full fifth byte")
+mutant("c14-lit-comp-shift", "C14", "C14.layout.literals-header", LITS, "Some((u32::from(raw[2]) >> 2) + (u32::from(raw[3]) << 6));", "Some((u32::from(raw[2]) >> 2) + (u32::from(raw[3]) << 5));")
+mutant("c14-lit-streams", "C14", "C14.layout.literals-header", LITS, "                    1..=3 => {\n                        self.num_streams = Some(4);", "                    1..=3 => {\n                        self.num_streams = Some(1);")
+mutant("c14-seqcount-3byte-const", "C14", "C14.table.seq-count", SEQS, "+ (u32::from(source[2]) << 8) + 0x7F00;", "+ (u32::from(source[2]) << 8) + 0x7F01;")
+mutant("c14-seqcount-enc-range", "C14", "C14.table.seq-count", COMP, "128..=0x7EFF => {", "128..=0x7F00 => {", more=[{"file": COMP, "find": "0x7F00..=UPPER_LIMIT => {", "replace": "0x7F01..=UPPER_LIMIT => {", "count": 1}])
+mutant("c14-seqcount-enc-byteorder", "C14", "C14.table.seq-count", COMP, "            writer.write_bits(lower, 8);\n            writer.write_bits(upper, 8);\n        }\n        _ => unreachable!(),", "            writer.write_bits(upper, 8);\n            writer.write_bits(lower, 8);\n        }\n        _ => unreachable!(),")
+mutant("c14-modes-shift", "C14", "C14.layout.modes-byte", SEQS, "Self::decode_mode((self.0 >> 4) & 0x3)", "Self::decode_mode((self.0 >> 3) & 0x3)")
+mutant("c14-fcs-256", "C14", "C14.layout.frame-descriptor", FRAME, "if fcs_len == 2 {\n            fcs += 256;", "if fcs_len == 4 {\n            fcs += 256;")
+mutant("c14-did-size-table", "C14", "C14.layout.frame-descriptor", FRAME, "            3 => Ok(4),\n            other => Err(FrameDescriptorError::InvalidFrameContentSizeFlag { got: other }),\n        }\n    }\n}", "            3 => Ok(3),\n            other => Err(FrameDescriptorError::InvalidFrameContentSizeFlag { got: other }),\n        }\n    }\n}")
+mutant("c14-checksum-flag-bit", "C14", "C14.layout.frame-descriptor", FRAME, "((self.0 >> 2) & 0x1) == 1", "((self.0 >> 3) & 0x1) == 1")
+mutant("c14-window-mantissa", "C14", "C14.layout.window-descriptor", FRAME, "let window_add = (window_base / 8) * u64::from(mantissa);", "let window_add = (window_base / 16) * u64::from(mantissa);")
+mutant("c14-window-max-strict", "C14", "C14.range.window-legal", FRAME, "if window_size <= MAX_WINDOW_SIZE {", "if window_size < MAX_WINDOW_SIZE {")
+mutant("c14-block-size-shift", "C14", "C14.layout.block-header", BLKD, "| (u32::from(self.header_buffer[2]) << 13)", "| (u32::from(self.header_buffer[2]) << 12)")
+mutant("c14-block-size-limit", "C14", "C14.refuse", BLKD, "if val > MAX_BLOCK_SIZE {", "if val > MAX_BLOCK_SIZE * 2 {")
+mutant("c14-enc-block-type-shift", "C14", "C14.layout.block-header", EBH, "block_header |= encoded_block_type << 1;", "block_header |= encoded_block_type << 2;")
+mutant("c14-enc-window-exponent", "C14", "C14.layout.frame-header-writer", EFH, "let log = window_size.next_power_of_two().ilog2();", "let log = window_size.ilog2();")
+mutant("c14-enc-descriptor-slot", "C14", "C14.layout.frame-header-writer", EFH, "        // `Reserved_bit`:\n        // This value must be zero\n        bw.write_bits(0u8, 1);\n", "")
+mutant("c14-enc-lit-format-bits", "C14", "C14.layout.literals-header", COMP, "1024..16384 => (0b10, 14),", "1024..16384 => (0b10, 10),")
+mutant("c14-enc-raw-lit-bits", "C14", "C14.layout.literals-header", COMP, "    writer.write_bits(0b11u8, 2);\n    writer.write_bits(literals.len() as u32, 20);", "    writer.write_bits(0b01u8, 2);\n    writer.write_bits(literals.len() as u32, 20);")
+benign("c14-comments-and-moves", "C14", SSD, "fn lookup_ll_code(code: u8) -> (u32, u8) {\n    match code {", "// moved\n\n\nfn lookup_ll_code(code: u8) -> (u32, u8) {\n    // table\n    match code {")
+benign("c14-split-arm", "C14", SSD, "0..=15 => (u32::from(code), 0),", "0..=7 => (u32::from(code), 0),\n        8..=15 => (code as u32, 0),")
+benign("c14-mask-before-shift", "C14", SEQS, "Self::decode_mode((self.0 >> 4) & 0x3)", "Self::decode_mode((self.0 & 0x30) >> 4)")
